@@ -408,7 +408,7 @@ def cosimulate(model, n, seed, T=3, steps=30):
 
 
 def main(tier):
-    sys.path.insert(0, '/repo')
+    sys.path.insert(0, os.environ.get('VERIF_REPO') or '/repo')
     t0 = time.time()
     import z3
     from checks import c20_model as M
@@ -577,7 +577,7 @@ def filelock_check(tier):
     """run in a subprocess so that the instrumented loader does not mix with the real pymap used above"""
     import subprocess
     env = dict(os.environ)
-    env['PYTHONPATH'] = '/verif/.deps:/verif:/repo'
+    env['PYTHONPATH'] = '/verif/.deps:%s:%s' % (VERIF, os.environ.get('VERIF_REPO') or '/repo')
     p = subprocess.run([sys.executable, '-m', 'checks.c20_filelock', tier], cwd=VERIF, env=env,
                        capture_output=True, text=True, timeout=3000)
     try:
@@ -588,7 +588,7 @@ def filelock_check(tier):
 
 
 def replay(harness, w):
-    sys.path.insert(0, '/repo')
+    sys.path.insert(0, os.environ.get('VERIF_REPO') or '/repo')
     if w.get('obligation') in ('exclusion', 'release_unlocked', 'deadlock'):
         err, trace = replay_real(w['kinds'], [tuple(a) for a in w['schedule']])
         return {'violates': err is not None, 'detail': err, 'trace': trace}
